@@ -48,6 +48,9 @@ def run(chk):
     chk.absorb(core.run_harness(["resolve", "replay", out], timeout=3000), "resolve")
     os.remove(out)
     chk.exhaustive = True
+    if thorough:   # the repository's own tests as a trace source
+        from . import repo
+        repo.validate(chk)
     for sw in (["D_InterceptRaw", "D_FallbackBeforeHead", "D_AllowProbeHeadFallback"] if thorough else ["D_InterceptRaw", "D_FallbackBeforeHead"]):
         r = core.run_tlc("MC_Resolve", cfg_text=rcfg(2, msets[:3] + [ALL9], reqm, ["off", "/a/"], emit=False, **{sw: True}),
                          extra_files=[pd], timeout=600)
